@@ -240,6 +240,10 @@ def _dataset_class(order):
 
     if order is None:
         return rdflib.Dataset
+    if order == "default-union":
+        # Dataset(default_union=True): queries on the dataset see the union of all graphs, its
+        # default graph still holds its own statements only
+        return lambda: rdflib.Dataset(default_union=True)
 
     class OrderedDataset(rdflib.Dataset):
         """A Dataset that lists its graphs in a fixed order: the empty ones first (or last),
